@@ -99,6 +99,9 @@ Search(pat, s) == IF Anchored(pat) THEN Match(pat, s)                           
 (* ====================================================================================================== *)
 IdSet == [c \in DOMAIN Cfgs |-> Range(Cfgs[c].ids)]                 \* reserved identifiers in force
 KwSet == [c \in DOMAIN Cfgs |-> Range(Cfgs[c].kw)]                  \* the language's own keywords (py: keyword.kwlist)
+(* reserved words of the LANGUAGE, independent of the tree under test: ISO C11 / C++20 keywords (constants of    *)
+(* the harness), keyword.kwlist + dir(builtins) of the interpreter that runs the check.                         *)
+OracleSet == [c \in DOMAIN Cfgs |-> Range(Cfgs[c].oracle)]
 
 (* patterns in force for a category: those filed under `all` and those filed under the category; the       *)
 (* category `any` stands for every category at once.  SomeRule(tbl, k, T(_)): some rule in force satisfies T.  *)
@@ -118,22 +121,23 @@ LexPy(c, o, nf) == /\ o # <<>> /\ PyStart(o[1]) /\ \A i \in 2..Len(o) : PyCont(o
                    /\ o \notin KwSet[c] /\ nf \notin KwSet[c]
 LexValid(c, o, nf) == IF Cfgs[c].lang = "py" THEN LexPy(c, o, nf) ELSE LexC(o)
 
-Reserved1(c, k, o) == o \in IdSet[c] \/ SomeRule(Cfgs[c].pats, k, LAMBDA p : Match(p, o))
+Reserved1(c, k, o) == o \in IdSet[c] \/ o \in OracleSet[c] \/ SomeRule(Cfgs[c].pats, k, LAMBDA p : Match(p, o))
 Reserved(c, k, o, nf) == Reserved1(c, k, o) \/ (Cfgs[c].lang = "py" /\ nf # o /\ Reserved1(c, k, nf))
 
 (* reading of "reserved" under which a pattern that is not anchored counts wherever it occurs: used only to  *)
 (* WEAKEN the premise of the identity clause (ambiguity rule).  (a match is in particular a search hit)       *)
 ReservedLoose(c, k, o, nf) ==
-    \/ o \in IdSet[c] \/ SomeRule(Cfgs[c].pats, k, LAMBDA p : Search(p, o))
+    \/ o \in IdSet[c] \/ o \in OracleSet[c] \/ SomeRule(Cfgs[c].pats, k, LAMBDA p : Search(p, o))
     \/ (Cfgs[c].lang = "py" /\ nf # o /\ Reserved1(c, k, nf))
 EncTouches(c, k, s) == SomeRule(Cfgs[c].encs, k, LAMBDA p : Search(p, s))
 
 (* what the property's clauses need to know about the input, and about one answer                            *)
-(* answer: [err |-> BOOLEAN, out |-> Seq(Nat), nf |-> NFKC(out)]                                             *)
+(* answer: [err |-> BOOLEAN, out |-> Seq(Nat), nf |-> NFKC(out), cc |-> the language's own compiler accepts    *)
+(*          the token in identifier position (recorded for Python: compile(); TRUE where nobody was asked)]     *)
 InAtoms(c, k, s, snf) ==
     LET l == ReservedLoose(c, k, s, snf)
     IN [v |-> LexValid(c, s, snf), r |-> l /\ Reserved(c, k, s, snf), l |-> l, e |-> EncTouches(c, k, s)]   \* (Reserved => ReservedLoose)
-OutAtoms(c, k, a) == [v |-> ~a.err /\ LexValid(c, a.out, a.nf), r |-> ~a.err /\ Reserved(c, k, a.out, a.nf)]
+OutAtoms(c, k, a) == [v |-> ~a.err /\ LexValid(c, a.out, a.nf) /\ a.cc, r |-> ~a.err /\ Reserved(c, k, a.out, a.nf)]
 
 (* "already a valid, unreserved identifier" under every reading (configuration-level validity included)      *)
 AlreadyOkA(ia) == ia.v /\ ~ia.l /\ ~ia.e
@@ -289,7 +293,7 @@ VerifyPat == RecheckStage("vpat", "rpat", FailPat(cfg, kind, tok), FALSE, "", "v
 VerifyKw  == RecheckStage("vkw", "rkw", FailKw(cfg, kind, tok), FALSE, "", "venc")
 VerifyEnc == RecheckStage("venc", "renc", FailEnc(cfg, kind, tok), FALSE, "", "ans")
 
-Answer0 == [err |-> err, out |-> tok, nf |-> IF err THEN <<>> ELSE NfModel(tok)]
+Answer0 == [err |-> err, out |-> tok, nf |-> IF err THEN <<>> ELSE NfModel(tok), cc |-> TRUE]
 (* the answer leaves the filter: this is the P-layer's step (memo records it)                               *)
 Return == /\ stage = "ans"
           /\ memo' = Append(memo, Answer0)
